@@ -141,7 +141,13 @@ fn seq_strategy() -> BoxedStrategy<String> {
             s.push(f);
             s
         });
-    // OSC: payload without BEL/ESC (multi-byte allowed), BEL or ESC \ terminator.
+    // OSC: payload without BEL (multi-byte allowed), BEL or ESC \ terminator.
+    // An ESC occurs in the payload only as the start of an *embedded
+    // well-formed sequence* (a short CSI, or `ESC ]`, whose own terminator is
+    // then the outer one): every ESC of the text still begins a well-formed
+    // sequence, and by the statement the OSC extends "up to BEL or ESC \",
+    // so everything up to the terminator — visible characters after the
+    // embedded sequence included — is removed.
     let payload_ch = prop_oneof![
         8 => prop::char::range(' ', '~'),
         1 => Just('\u{65e5}'),
@@ -149,11 +155,26 @@ fn seq_strategy() -> BoxedStrategy<String> {
         3 => any::<char>().prop_filter("not BEL/ESC", |c| *c != '\x07' && *c != '\x1b'),
     ]
     .boxed();
+    let embedded = (prop::collection::vec(prop::char::range(' ', '?'), 0..=3), prop::char::range('@', '~'))
+        .prop_map(|(p, f)| {
+            let mut s = String::from("\x1b[");
+            s.extend(p);
+            s.push(f);
+            s
+        });
+    let piece = prop_oneof![
+        60 => payload_ch.prop_map(|c| c.to_string()),
+        2 => embedded,
+        1 => Just("\x1b]".to_string()),
+    ]
+    .boxed();
     // payload length mostly short, on a logarithmic scale up to 700
     let plen = prop_oneof![120 => (0usize..8).boxed(), 10 => gen::log_count(700), 1 => gen::log_count(70_000)];
-    let osc = (plen.prop_flat_map(move |n| prop::collection::vec(payload_ch.clone(), n..=n)), any::<bool>()).prop_map(|(p, bel)| {
+    let osc = (plen.prop_flat_map(move |n| prop::collection::vec(piece.clone(), n..=n)), any::<bool>()).prop_map(|(p, bel)| {
         let mut s = String::from("\x1b]");
-        s.extend(p);
+        for x in p {
+            s.push_str(&x);
+        }
         s.push_str(if bel { "\x07" } else { "\x1b\\" });
         s
     });
